@@ -144,7 +144,10 @@ def sv1Comps : Nat → List Nat → Option (List Nat)
 def sv1SOF3 (d : Dec) (data : List Nat) : Option Dec :=
   match data with
   | p :: hh :: hl :: wh :: wl :: n :: rest =>
-    if p < 2 ∨ p > 16 then none
+    -- since fix 7825a71: `if len(d.components) > 0 { return ErrInvalidSOF }` — a second frame header is
+    -- rejected (jpeg/lossless was not changed: its parseSOF3 overwrites the fields, see `jllSOF3`)
+    if d.ncomp > 0 then none
+    else if p < 2 ∨ p > 16 then none
     else
       let h := hh * 256 + hl
       let w := wh * 256 + wl
